@@ -34,14 +34,15 @@ def lit(v, nwords, ty):
     return "(" + " | ".join(parts or ["((%s)0)" % ty]) + ")"
 
 
-def prelude(widths=(64, 128, 192, 256, 384, 512, 768)):
+def prelude(widths=(64, 128, 192, 256, 384, 512, 768), wordbits=64):
+    """wordbits: width of BigInt::word_t in the configuration being extracted (the VALn / OLDn readings are the same integers)"""
     out = ["/* ---- spec vocabulary (not library code) ---- */"]
     for n in widths:
-        nw = n // 64
+        nw = max(1, n // wordbits)
         ty = "uv%d" % n
         out.append("typedef unsigned __CPROVER_bitvector[%d] %s;" % (n + 64, ty))
-        out.append("#define VAL%d(p) (%s)" % (n, " | ".join("((%s)(p)->words[%d] << %d)" % (ty, i, 64 * i) for i in range(nw))))
-        out.append("#define OLD%d(p) (%s)" % (n, " | ".join("((%s)__CPROVER_old((p)->words[%d]) << %d)" % (ty, i, 64 * i) for i in range(nw))))
+        out.append("#define VAL%d(p) (%s)" % (n, " | ".join("((%s)(p)->words[%d] << %d)" % (ty, i, wordbits * i) for i in range(nw))))
+        out.append("#define OLD%d(p) (%s)" % (n, " | ".join("((%s)__CPROVER_old((p)->words[%d]) << %d)" % (ty, i, wordbits * i) for i in range(nw))))
     out.append("#define SPEC_Q %s" % lit(Q, 6, "uv384"))
     out.append("#define SPEC_R %s" % lit(R, 4, "uv256"))
     out.append("#define SPEC_MOD384 SPEC_Q")
